@@ -163,15 +163,19 @@ where
             }
             if let Some(other) = typ.get_var() {
                 let other_id = other.get_id();
-                if let Some(real_type) = self.subs.find_type_for_var(other_id) {
-                    typ = real_type;
-                } else {
-                    if self.var.get_id() == other_id {
-                        self.occurs = true;
-                        typ.traverse(self);
+                match self.subs.find_type_for_var(other_id) {
+                    // The variable is bound to a type, look inside that instead
+                    Some(real_type) if real_type.get_var().is_none() => typ = real_type,
+                    // Unbound (possibly an alias of another unbound variable): it is an
+                    // occurrence if it belongs to the same equivalence class as `var`
+                    _ => {
+                        if self.subs.root_var(self.var) == self.subs.root_var(other_id) {
+                            self.occurs = true;
+                            return;
+                        }
+                        self.subs.update_level(self.var, other_id);
                         return;
                     }
-                    self.subs.update_level(self.var, other.get_id());
                 }
             }
             typ.traverse(self);
@@ -406,6 +410,15 @@ where
                 Some(&self.variables[index as usize])
             }
         })
+    }
+
+    /// The representative of the equivalence class of the (unbound) variable `var`
+    fn root_var(&self, var: u32) -> u32 {
+        let mut union = self.union.borrow_mut();
+        if var as usize >= union.len() {
+            return var;
+        }
+        union.find(var).index
     }
 
     /// Updates the level of `other` to be the minimum level value of `var` and `other`
